@@ -138,11 +138,11 @@ Qed.
 Print Assumptions C09_guards_satisfiable.
 
 (* ---------------------------------------------------------------- IndexHierarchyGO *)
-(* IndexLevelGO.append on the tree, every depth and shape: inside the guard (the key's outer labels, as far
-   as they are found, are the LAST labels on the last edge) exactly the given label is added at the end *)
+(* IndexLevelGO.append on the tree (after fix 5320f59), every depth and shape, no guard: an accepted call
+   adds exactly the given label at the end; labels whose == is identity (str, int) *)
 Theorem C09_hier_append : forall (L : Type) (leq : L -> L -> bool),
   (forall a b, leq a b = true -> a = b) ->
-  forall t key t', lvl_wf L t -> on_last_edge L leq t key = true -> M_lappend L leq t key = Ok t' ->
+  forall t key t', lvl_wf L t -> M_lappend L leq t key = Ok t' ->
   flatten L t' = flatten L t ++ [key] /\ lvl_wf L t'.
 Proof. exact hier_append_correct. Qed.
 Print Assumptions C09_hier_append.
@@ -152,12 +152,13 @@ Theorem C09_hier_append_rejected : forall (L : Type) (leq : L -> L -> bool) (h :
 Proof. exact hier_append_rejected. Qed.
 Print Assumptions C09_hier_append_rejected.
 
-Theorem C09_hier_guard_satisfiable :
-  lvl_wf Z ex_tree /\ on_last_edge Z Z.eqb ex_tree [20; 2] = true /\
+Theorem C09_hier_nonvacuous :
+  lvl_wf Z ex_tree /\
   M_lappend Z Z.eqb ex_tree [20; 2] = Ok (Node [10; 20] [Leaf [1]; Leaf [1; 2]]) /\
-  on_last_edge Z Z.eqb ex_tree [30; 1] = true /\ on_last_edge Z Z.eqb ex_tree [10; 2] = false.
+  M_lappend Z Z.eqb ex_tree [30; 1] = Ok (Node [10; 20; 30] [Leaf [1]; Leaf [1]; Leaf [1]]) /\
+  is_ok (M_lappend Z Z.eqb ex_tree [10; 2]) = false /\ is_ok (M_lappend Z Z.eqb ex_tree [20; 1]) = false.
 Proof. exact ex_tree_guard. Qed.
-Print Assumptions C09_hier_guard_satisfiable.
+Print Assumptions C09_hier_nonvacuous.
 
 (* ---------------------------------------------------------------- never shared *)
 (* the decision tables REGENERATED from the source: a grow-only index is never handed on as the same
